@@ -99,4 +99,48 @@ PROPS = {
               "are checked for >=1 segment, normal non-decreasing ends, and the three evaluation paths are compared "
               "at the critical queries (forward and backward through the evaluator)"),
     ),
+    "C01": dict(
+        kind=OFFLINE, oracle="c01.py",
+        rule=("cases = distinct (form, coefficient bits, argument bits) evaluations of Poly0-8, PolyN (length 0-12) "
+              "and Log<Poly0-8>; the driver records the returned bits, the oracle recomputes sum c_i x^i in exact "
+              "rational arithmetic (ln v at 400 bits for Log forms) and demands equality when every partial term of "
+              "any scheme is exactly representable, else |r-S| <= 4(n+2) 2^-53 sum|c_i||x|^i (+ propagated ulp of ln); "
+              "inputs with a partial term or power outside [2^-960, 2^1000] are skipped and counted"),
+        assumptions=["f64::ln of the platform is within one ulp (the property's own allowance)",
+                     "mpmath at 400 bits is exact enough; every 97th Log event is recomputed at 800 bits (guard)"],
+    ),
+    "C07": dict(
+        kind=OFFLINE, oracle="c07.py",
+        rule=("cases = distinct (degree 0-7, coefficient bits, knot, a, b) tuples; the driver records indefinite(), "
+              "integral(knot), its derivative and evaluations at knot.x, a, b; the oracle checks in exact rational "
+              "arithmetic: zero constant term, coefficients c_i/(i+1) within 3u, the returned F evaluated exactly at "
+              "knot.x equals knot.y within (4(n+3)+2)u*(sum|F_i||x|^i+|y|), F(b)-F(a) (library evaluate) equals the exact "
+              "integral within (4(n+3)+4)u*(A_F(a)+A_F(b)), derivative of the result within one ulp of p; Segment<T> "
+              "integral compared bit for bit with the piece's (online)"),
+    ),
+    "C08": dict(
+        kind=OFFLINE, oracle="c08.py",
+        rule=("cases = distinct (degree 0-8, coefficient bits, x) tuples for the coefficient/value oracle (exact: "
+              "D_i == (i+1)c_(i+1) for factors 1,2,4,8, within one ulp otherwise; derivative().evaluate(x) vs exact "
+              "p'(x) within (4(n+1)+2)u*sum|(i+1)c_(i+1)||x|^i) plus distinct piecewise functions for the online "
+              "structural monitor (trace probes and real pieces: count, order, end bits, piece == piece.derivative())"),
+    ),
+    "C09": dict(
+        kind=OFFLINE, oracle="c09.py",
+        rule=("cases = distinct (degree 0-8, coefficient bits, knot, a, b) tuples with knot.x, a, b > 0 deliberately "
+              "away from 1; the oracle builds the exact antiderivative t*Q(ln t) (rational recurrence, ln at 400 bits) "
+              "and checks F(knot.x)=knot.y, F(b)-F(a) and the same for indefinite() within K*u*(S(a)+S(b)+2(S(kx)+|ky|)) "
+              "+ propagated ulp of ln, K=16(n+3), S from absolute-value recurrences; for degree 4 the bound includes "
+              "1e-12*S (the quartic form's own stated accuracy, C10); non-quartic coefficients also checked against "
+              "the recurrence"),
+        assumptions=["f64::ln within one ulp", "400-bit reference; every 101st event recomputed at 800 bits"],
+    ),
+    "C10": dict(
+        kind=OFFLINE, oracle="c10.py",
+        rule=("cases = distinct ((k,c1..c4,u) bits, v bits) evaluations of IntOfLogPoly4; v covers +-3000 ulps of 1 and "
+              "of both series/closed-form switch points (located by bisection on the computed -ln v), dense sweep of "
+              "x in [-40,40], 1e-300..1e300; the oracle evaluates k+v*sum c_j x^j+u*v*x^5*R(x) at 400 bits (series for "
+              "|x|<2) and demands |r-truth| <= 1e-12*sum|terms| and r==k at v=1; the executed branch is read from hook H2"),
+        assumptions=["400-bit reference; every 211th event recomputed at 900 bits"],
+    ),
 }
